@@ -4,12 +4,19 @@ import Sigc.SlotGLemmasWF3
 -/
 namespace Sigc.SlotG
 
+/-- an operation that is performed names program variables only -/
+theorem check_named {s : State} {op : Op} (hc : check s op = none) : op.named = true ∧ check0 s op = none := by
+  unfold check at hc
+  by_cases hn : op.named = true
+  · rw [if_pos hn] at hc; exact ⟨hn, hc⟩
+  · rw [if_neg hn] at hc; cases hc
+
 theorem isSome_of_not_dead {s : State} {v : Nat} (h : deadS s v = false) : (s.slots v).isSome = true := by
   unfold deadS at h; cases hx : s.slots v <;> simp_all
 
-theorem wf_asgS {s : State} (hw : WF s) {d x : Nat} (hc : check s (.asgS d x) = none)
+theorem wf_asgS {s : State} (hw : WF s) {d x : Nat} (hc : check0 s (.asgS d x) = none) (hnm : d < anonBase)
     (he : (apply (.asgS d x) s).err = false) : WF (apply (.asgS d x) s) := by
-  simp only [check] at hc
+  simp only [check0] at hc
   split at hc
   · simp at hc
   · rename_i hdead
@@ -28,19 +35,19 @@ theorem wf_asgS {s : State} (hw : WF s) {d x : Nat} (hc : check s (.asgS d x) = 
         simp only [hsame'] at hc
         by_cases hemp : emptyVar s x = true
         · simp only [hemp, if_true] at he hc ⊢
-          exact wf_deleteRepWithCheck hw he
+          exact wf_deleteRepWithCheck hw hnm he
         · rw [if_neg hemp] at he ⊢
           cases hr : X.rep with
           | none => exact hw
           | some r =>
             simp only [hr] at he ⊢
             obtain ⟨R, hR⟩ := hw.inv.repAlive x r (by rw [hXr]; exact hr)
-            obtain ⟨N, -, hF⟩ := fresh_cloneRep hw hR
-            exact wf_exchange_fresh (fresh_modSlot_blocked hF d _) hd he
+            obtain ⟨N, hF⟩ := fresh_cloneRep hw r
+            exact wf_exchange_fresh (fresh_modSlot_blocked hF d _) hd hnm he
 
-theorem wf_masgS {s : State} (hw : WF s) {d x : Nat} (hc : check s (.masgS d x) = none)
+theorem wf_masgS {s : State} (hw : WF s) {d x : Nat} (hc : check0 s (.masgS d x) = none) (hnm : d < anonBase)
     (he : (apply (.masgS d x) s).err = false) : WF (apply (.masgS d x) s) := by
-  simp only [check] at hc
+  simp only [check0] at hc
   split at hc
   · simp at hc
   · rename_i hdead
@@ -59,7 +66,7 @@ theorem wf_masgS {s : State} (hw : WF s) {d x : Nat} (hc : check s (.masgS d x) 
         simp only [hsame'] at hc
         by_cases hemp : emptyVar s x = true
         · simp only [hemp, if_true] at he hc ⊢
-          exact wf_deleteRepWithCheck hw he
+          exact wf_deleteRepWithCheck hw hnm he
         · rw [if_neg hemp] at he ⊢
           cases hr : X.rep with
           | none => exact hw
@@ -80,9 +87,9 @@ theorem wf_masgS {s : State} (hw : WF s) {d x : Nat} (hc : check s (.masgS d x) 
             have hR0 : s0.reps r = some R := by rw [hreps0]; exact hR
             by_cases hpar : hasParent s x = true
             · simp only [hpar, if_true] at he ⊢
-              obtain ⟨N, -, hF⟩ := fresh_cloneRep hw0 hR0
+              obtain ⟨N, hF⟩ := fresh_cloneRep hw0 r
               rw [← hnext0] at he ⊢
-              exact wf_exchange_fresh hF hd0 he
+              exact wf_exchange_fresh hF hd0 hnm he
             · rw [if_neg hpar] at he ⊢
               have hRp : R.parent = none := by
                 cases hpp : R.parent with
@@ -99,19 +106,21 @@ theorem wf_masgS {s : State} (hw : WF s) {d x : Nat} (hc : check s (.masgS d x) 
                 | some D => exact ⟨D, rfl⟩
               exact wf_exchange h1 h2 h3 h4 hRp rfl h5 hdM he
 
-theorem wf_setS {s : State} (hw : WF s) {d : Nat} {f : Fun} (hc : check s (.setS d f) = none)
+theorem wf_setS {s : State} (hw : WF s) {d : Nat} {f : Fun} (hc : check0 s (.setS d f) = none) (hnm : d < anonBase)
+    (hnf : ∀ v, v ∈ f.names.1 → v < anonBase)
     (he : (apply (.setS d f) s).err = false) : WF (apply (.setS d f) s) := by
-  simp only [check] at hc
+  simp only [check0] at hc
   split at hc
   · simp at hc
   · rename_i hdead
     have hd := isSome_of_not_dead (by simpa using hdead)
-    have hF := fresh_modSlot_blocked (fresh_allocBind hw true (funOk_of_spec hw.inv hc)) d false
-    exact wf_exchange_fresh hF hd he
+    obtain ⟨N, hF0⟩ := fresh_newRep hw hc hnf
+    have hF := fresh_modSlot_blocked hF0 d false
+    exact wf_exchange_fresh hF hd hnm he
 
-theorem wf_clrS {s : State} (hw : WF s) {d : Nat} (hc : check s (.clrS d) = none)
+theorem wf_clrS {s : State} (hw : WF s) {d : Nat} (hc : check0 s (.clrS d) = none) (hnm : d < anonBase)
     (he : (apply (.clrS d) s).err = false) : WF (apply (.clrS d) s) := by
-  simp only [check] at hc
+  simp only [check0] at hc
   split at hc
   · simp at hc
   · simp only [apply] at he ⊢
@@ -119,7 +128,7 @@ theorem wf_clrS {s : State} (hw : WF s) {d : Nat} (hc : check s (.clrS d) = none
     · exact wf_modSlot_blocked hw d false
     · rename_i r hr
       simp only [hr] at he
-      exact wf_deleteRepWithCheck hw he
+      exact wf_deleteRepWithCheck hw hnm he
 
 /-! ### connections, continued -/
 
@@ -136,23 +145,23 @@ theorem connTarget_eq {s : State} {c v : Nat} : connTarget s c = some v ↔ s.co
   | none => simp
   | some p => simp
 
-theorem wf_connOps {s : State} (hw : WF s) (op : Op) (hc : check s op = none)
+theorem wf_connOps {s : State} (hw : WF s) (op : Op) (hc : check0 s op = none)
     (hop : (∃ c v, op = .connS c v) ∨ (∃ c, op = .newC c) ∨ (∃ j i, op = .cpC j i) ∨
       (∃ d x, op = .asgC d x) ∨ (∃ c, op = .delC c)) : WF (apply op s) := by
   have hI := hw.inv
   rcases hop with ⟨c, v, rfl⟩ | ⟨c, rfl⟩ | ⟨j, i, rfl⟩ | ⟨d, x, rfl⟩ | ⟨c, rfl⟩
   · -- connS
     have hcd : s.conns c = none := by
-      cases hx : s.conns c <;> cases hy : s.slots v <;> simp_all [check, deadS, deadC]
+      cases hx : s.conns c <;> cases hy : s.slots v <;> simp_all [check0, deadS, deadC]
     have hr : ∃ r, repOf s v = some r := by
-      cases hx : repOf s v <;> cases hy : s.slots v <;> simp_all [check, deadS, deadC]
+      cases hx : repOf s v <;> cases hy : s.slots v <;> simp_all [check0, deadS, deadC]
     exact wf_attach hw (by intro w; rw [hcd]; simp) hr
   · -- newC
-    have hcd : s.conns c = none := by cases hx : s.conns c <;> simp_all [check, deadC]
+    have hcd : s.conns c = none := by cases hx : s.conns c <;> simp_all [check0, deadC]
     exact wf_setConn_none hw (by intro w; rw [hcd]; simp) _ (.inr rfl)
   · -- cpC
     have hjd : s.conns j = none := by
-      cases hx : s.conns j <;> cases hy : s.conns i <;> simp_all [check, deadC]
+      cases hx : s.conns j <;> cases hy : s.conns i <;> simp_all [check0, deadC]
     have hj : ∀ w, s.conns j ≠ some (some w) := by intro w; rw [hjd]; simp
     simp only [apply]
     split
@@ -204,30 +213,42 @@ theorem wf_connOps {s : State} (hw : WF s) (op : Op) (hc : check s op = none)
 
 /-! ### every operation -/
 
-theorem apply_wf {s : State} (hw : WF s) (op : Op) (hc : check s op = none)
+theorem apply_wf {s : State} (hw : WF s) (op : Op) (hc' : check s op = none)
     (he : (apply op s).err = false) : WF (apply op s) := by
+  obtain ⟨hn, hc⟩ := check_named hc'
+  clear hc'
   cases op with
-  | newT t => exact wf_newT hw (by cases hx : s.trks t <;> simp_all [check, deadT])
-  | delT t => exact wf_delT hw (by cases hx : s.trks t <;> simp_all [check, deadT]) he
+  | newT t => exact wf_newT hw (by cases hx : s.trks t <;> simp_all [check0, deadT])
+  | delT t => exact wf_delT hw (by cases hx : s.trks t <;> simp_all [check0, deadT]) he
   | notifyT t => exact wf_notifyT hw t he
   | mkS v f =>
-    have h1 : s.slots v = none := by cases hx : s.slots v <;> simp_all [check, deadS]
-    have h2 : specCheck s f = none := by simp_all [check, deadS]
-    exact wf_mkS hw h1 h2
-  | mkS0 v => exact wf_mkS0 hw (by cases hx : s.slots v <;> simp_all [check, deadS])
+    have h1 : s.slots v = none := by cases hx : s.slots v <;> simp_all [check0, deadS]
+    have h2 : specCheck s f = none := by simp_all [check0, deadS]
+    simp only [Op.named, Op.names, List.all_cons, Bool.and_eq_true, decide_eq_true_eq, List.all_eq_true] at hn
+    exact wf_mkS hw h1 h2 hn.1 hn.2
+  | mkS0 v =>
+    exact wf_mkS0 hw (by cases hx : s.slots v <;> simp_all [check0, deadS]) (by simpa [Op.named, Op.names] using hn)
   | cpS j i =>
-    exact wf_cpS hw (by cases hx : s.slots j <;> cases hy : s.slots i <;> simp_all [check, deadS])
+    have hn' : j < anonBase ∧ i < anonBase := by simpa [Op.named, Op.names] using hn
+    exact wf_cpS hw (by cases hx : s.slots j <;> cases hy : s.slots i <;> simp_all [check0, deadS]) hn'.1
   | mvS j i =>
-    exact wf_mvS hw (by cases hx : s.slots j <;> cases hy : s.slots i <;> simp_all [check, deadS])
-  | asgS d x => exact wf_asgS hw hc he
-  | masgS d x => exact wf_masgS hw hc he
-  | setS d f => exact wf_setS hw hc he
-  | clrS d => exact wf_clrS hw hc he
+    have hn' : j < anonBase ∧ i < anonBase := by simpa [Op.named, Op.names] using hn
+    exact wf_mvS hw (by cases hx : s.slots j <;> cases hy : s.slots i <;> simp_all [check0, deadS]) hn'.1
+  | asgS d x =>
+    have hn' : d < anonBase ∧ x < anonBase := by simpa [Op.named, Op.names] using hn
+    exact wf_asgS hw hc hn'.1 he
+  | masgS d x =>
+    have hn' : d < anonBase ∧ x < anonBase := by simpa [Op.named, Op.names] using hn
+    exact wf_masgS hw hc hn'.1 he
+  | setS d f =>
+    simp only [Op.named, Op.names, List.all_cons, Bool.and_eq_true, decide_eq_true_eq, List.all_eq_true] at hn
+    exact wf_setS hw hc hn.1 hn.2 he
+  | clrS d => exact wf_clrS hw hc (by simpa [Op.named, Op.names] using hn) he
   | delS v =>
     have h2 : pinnedOther s v = false := by
-      cases hx : pinnedOther s v <;> cases hy : s.slots v <;> simp_all [check, deadS]
+      cases hx : pinnedOther s v <;> cases hy : s.slots v <;> simp_all [check0, deadS]
     have h3 : ownedBy s v = false := by
-      cases hx : ownedBy s v <;> cases hy : s.slots v <;> simp_all [check, deadS]
+      cases hx : ownedBy s v <;> cases hy : s.slots v <;> simp_all [check0, deadS]
     exact wf_delS hw h2 h3 he
   | discS v =>
     simp only [apply] at he ⊢
@@ -272,7 +293,7 @@ theorem apply_wf {s : State} (hw : WF s) (op : Op) (hc : check s op = none)
   | bad => exact hw
 
 theorem wf_init : WF State.init := by
-  refine ⟨⟨?_, ?_, ?_, ?_, ?_, ?_, ?_, ?_, ?_, ?_, ?_, ?_, ?_⟩, ?_, ?_⟩ <;>
+  refine ⟨⟨?_, ?_, ?_, ?_, ?_, ?_, ?_, ?_, ?_, ?_, ?_, ?_, ?_, ?_, ?_⟩, ?_, ?_⟩ <;>
     simp [State.init, repOf, Idle, Held]
 
 /-- one step of the language keeps the state well-formed -/
